@@ -4,6 +4,8 @@ package tk
 
 import (
 	"fmt"
+	"strings"
+	"sync"
 	"time"
 
 	"gitee.com/Trisia/gotlcp/dtlcp"
@@ -79,7 +81,12 @@ func BuildDTLCP(e EPConfig, reg *Registry) *dtlcp.Config {
 		m := reg.mapDTLCP()
 		sc, ok := m[e.Cache]
 		if !ok {
-			sc = dtlcp.NewLRUSessionCache(e.CacheCap)
+			if strings.HasPrefix(e.Cache, "ptr:") {
+				// a user-supplied cache that keeps the very object it is handed (the interface allows it)
+				sc = &ptrCacheDTLCP{m: map[string]*dtlcp.SessionState{}}
+			} else {
+				sc = dtlcp.NewLRUSessionCache(e.CacheCap)
+			}
 			m[e.Cache] = sc
 		}
 		c.SessionCache = sc.(dtlcp.SessionCache)
@@ -179,3 +186,26 @@ func guardDTLCP(f func() error) (err error, pan string) {
 }
 
 var _ = time.Second
+
+// ptrCacheDTLCP is a SessionCache written by a user of the library: it stores the pointer it is given.
+type ptrCacheDTLCP struct {
+	mu sync.Mutex
+	m  map[string]*dtlcp.SessionState
+}
+
+func (c *ptrCacheDTLCP) Get(k string) (*dtlcp.SessionState, bool) {
+	c.mu.Lock()
+	defer c.mu.Unlock()
+	s, ok := c.m[k]
+	return s, ok && s != nil
+}
+
+func (c *ptrCacheDTLCP) Put(k string, s *dtlcp.SessionState) {
+	c.mu.Lock()
+	defer c.mu.Unlock()
+	if s == nil {
+		delete(c.m, k)
+		return
+	}
+	c.m[k] = s
+}
